@@ -14,7 +14,7 @@ VARIABLE i
 Init == i \in 1..Len(Rows)
 Next == UNCHANGED i
 Rng(s) == {s[k] : k \in DOMAIN s}
-Model(r) == CASE r.act = "Reconfigure" -> Plan(r.l0, r.arg) [] r.act = "Upgrade" -> PlanUpgrade(r.l0, r.arg)
+Model(r) == CASE r.act = "Reconfigure" -> Impure(Plan(r.l0, r.arg)) [] r.act = "Upgrade" -> PlanUpgrade(r.l0, r.arg)
               [] r.act = "UpgradeShared" -> PlanUpgradeShared(r.l0, r.arg)
 L1(r) == Model(r).lay
 Failed(r) ==
@@ -27,8 +27,11 @@ Failed(r) ==
     \cup (IF ~HasTree(r.l0) /\ HasTree(L1(r)) /\ r.c1.hasTree /\ (r.c1.wt # r.c1.tipTree \/ r.c1.changes # "[]")
           THEN {"tree-created"} ELSE {})
     \cup (IF r.rout # "ok" /\ r.c1 # r.c0 THEN {"refusal-noop"} ELSE {})
-Drift(r) == r.rout # Model(r).out \/ r.r1.tree # L1(r).tree \/ r.r1.br # L1(r).br \/ r.r1.repo # L1(r).repo \/ r.c1.hasTree # r.r1.tree
+\* upgrades of a location that is no longer pure are unspecified: only their effect on the content is judged
+Unspecified(r) == r.act # "Reconfigure" /\ ~r.l0.pure
+DriftSpecified(r) == r.rout # Model(r).out \/ r.r1.tree # L1(r).tree \/ r.r1.br # L1(r).br \/ r.r1.repo # L1(r).repo \/ r.c1.hasTree # r.r1.tree
            \/ L1(r) # r.l1          \* the state machine and the judge must agree on the plan
+Drift(r) == ~Unspecified(r) /\ DriftSpecified(r)
 Bad == SelectSeq([k \in 1..Len(Rows) |-> [row |-> k, failed |-> SetToSeq(Failed(Rows[k])), drift |-> Drift(Rows[k])]],
                  LAMBDA r : r.failed # <<>> \/ r.drift)
 ASSUME JsonSerialize(IOEnv.VF_OUT, [n |-> Len(Rows), bad |-> Bad])
